@@ -6,8 +6,8 @@
 //
 // What is looked for (names are NOT hard-coded except the type Mux and its method ServeHTTP):
 //
-//   - the functions and methods of package httpd reachable from (*Mux).ServeHTTP through same-package calls;
-//   - in them, every RENDERING of a number: strconv.AppendUint(buf, V, base) or strconv.FormatUint(V, base), whose V is
+//   - in EVERY function and method of package httpd (the id may be made in ServeHTTP, in the pool's New, lazily in GetID,
+//     in a method of a nested id source ...), every RENDERING of a number: strconv.AppendUint(buf, V, base) or strconv.FormatUint(V, base), whose V is
 //     counter-related, i.e. mentions an integer or sync/atomic field of Mux, a sync/atomic function, or a local assigned
 //     from such an expression;
 //   - V must RESOLVE to an INCREMENT   atomic.AddUint64(&x.f, d) / atomic.AddInt64(&x.f, d)   or   x.f.Add(d)   with f a field
@@ -44,7 +44,7 @@ type fact struct {
 	Shape      string // AddUint64 | AddInt64 | MethodAdd | other | none
 	Delta      string
 	Base       string
-	Renderings int // counter-related renderings reachable from ServeHTTP
+	Renderings int // counter-related renderings in the package
 	Uses       int // mentions x.<field> in the package
 	Field      string
 	Rendered   []string // the V expressions, verbatim
@@ -62,8 +62,8 @@ func (f fact) comment() string {
 	if f.ViaLocal {
 		via = " (indirectly)"
 	}
-	return fmt.Sprintf("(* counter field Mux.%s %s; rendered%s: %s; mentions of the field in package httpd: %d; functions reachable from ServeHTTP: %s *)",
-		f.Field, f.FieldType, via, strings.Join(f.Rendered, " ; "), f.Uses, strings.Join(f.Reachable, ","))
+	return fmt.Sprintf("(* counter field Mux.%s %s; rendered%s: %s; mentions of the field in package httpd: %d; functions searched: %d *)",
+		f.Field, f.FieldType, via, strings.Join(f.Rendered, " ; "), f.Uses, len(f.Reachable))
 }
 
 func show(fset *token.FileSet, n ast.Node) string {
@@ -460,32 +460,10 @@ func analyze(fset *token.FileSet, files []*ast.File) fact {
 		}
 	}
 	res := fact{FieldType: "?", Shape: "none", Delta: "?", Base: "?"}
-	// functions reachable from (*Mux).ServeHTTP through same-package calls (by name)
-	seen := map[string]bool{}
-	var queue []string
-	for _, d := range a.funcs["ServeHTTP"] {
-		if d.decl.Recv != nil && strings.Contains(show(fset, d.decl.Recv.List[0].Type), "Mux") {
-			seen["ServeHTTP"] = true
-			queue = append(queue, "ServeHTTP")
-		}
-	}
-	for len(queue) > 0 {
-		name := queue[0]
-		queue = queue[1:]
-		for _, d := range a.funcs[name] {
-			ast.Inspect(d.decl.Body, func(n ast.Node) bool {
-				if c, ok := n.(*ast.CallExpr); ok {
-					callee := a.callee(d.file, c)
-					if callee != "" && !seen[callee] {
-						seen[callee] = true
-						queue = append(queue, callee)
-					}
-				}
-				return true
-			})
-		}
-	}
-	for n := range seen {
+	// Where the id is made differs between implementations (ServeHTTP, the pool's New, lazily in GetID or a helper of a
+	// nested id source): every function and method of the package is searched.  What keeps unrelated numbers out is
+	// the relatedness test below, not the call graph.
+	for n := range a.funcs {
 		res.Reachable = append(res.Reachable, n)
 	}
 	sort.Strings(res.Reachable)
